@@ -32,7 +32,7 @@ pub fn write(ctx: &Ctx, prop: &str, level: &str, rep: &Report, wall_s: f64) -> s
         "coverage": cov,
         "assumptions": rep.assumptions,
         "wall_s": wall_s,
-        "violations": rep.violations.len(),
+        "violations": rep.violations.len() as u64 + rep.fuzz_violations,
     });
     let path = dir.join(format!("{prop}.json"));
     std::fs::write(path, serde_json::to_string_pretty(&ev).unwrap())
